@@ -331,8 +331,8 @@ func (w *World) Execute(reqs []Req, goroutines int, seed int64) map[string]*Rec 
 		rec.Invocations = append(rec.Invocations, string(j))
 	}
 	for _, fe := range w.flog.Drain() {
-		if fe.Phase != "pre" {
-			continue
+		if fe.Phase != "pre" && fe.ReqID == "" {
+			continue // a post-request event that no context-adding filter tagged
 		}
 		rec := out[fe.ReqID]
 		if rec == nil {
